@@ -56,3 +56,17 @@ package kmip
 //@   requires key != nil
 //@ func (*PrivateKey).Pkcs8Pem
 //@   requires key != nil
+
+// ---------------------------------------------------------------------------
+// dispatch to registered types (C06): the unknown branches
+
+//@ func newRequestPayload
+//@   ensures !mapok(operationRegistry, op) ==> typeis(r0, *UnknownPayload) && dyn(r0, *UnknownPayload) != nil && dyn(r0, *UnknownPayload).opType == op
+//@ func newResponsePayload
+//@   ensures !mapok(operationRegistry, op) ==> typeis(r0, *UnknownPayload) && dyn(r0, *UnknownPayload) != nil && dyn(r0, *UnknownPayload).opType == op
+//@ func (*UnknownPayload).Operation
+//@   requires pl != nil
+//@   ensures r0 == pl.opType
+//@   pure
+//@ func NewObjectForType
+//@   ensures !mapok(objectTypes, objType) ==> r0 == nil && r1 != nil
